@@ -67,6 +67,7 @@ static int g_manifest_variant;
 static const char* g_msg_fresh = "C04: a command starts only after every producer of what it reads has brought it up to date";
 static const std::string* g_dyndep_override;     // when set: the text the command producing g_dyndep_override_out writes instead of its spec's
 static const char* g_dyndep_override_out = "dd";
+static bool g_mkdir_may_fail;          // directory creation may fail (permissions, a file in the way)
 static bool g_dead;                    // the simulated process has died: nothing ninja does persists any more (C07)
 static void persistence_event() { if (verif_vfs_event()) g_dead = true; }     // one event counter for DiskInterface and stdio/unistd mutations
 
@@ -83,7 +84,7 @@ struct SymDisk : public DiskInterface {
     g_tree->log.push_back("write " + path);
     g_tree->write_text(path, contents); return true;
   }
-  bool MakeDir(const std::string& path) override { persistence_event(); if (g_dead) return true; g_tree->log.push_back("mkdir " + path); if (!g_tree->has_dir(path)) g_tree->dirs.push_back(path); return true; }
+  bool MakeDir(const std::string& path) override { if (g_mkdir_may_fail && verif_bool("mkdir_fails")) return false; persistence_event(); if (g_dead) return true; g_tree->log.push_back("mkdir " + path); if (!g_tree->has_dir(path)) g_tree->dirs.push_back(path); return true; }
   Status ReadFile(const std::string& path, std::string* contents, std::string* err) override {
     if (path == "build.ninja") { *contents = g_sc->manifest[g_manifest_variant]; return Okay; }
     VFile* f = g_tree->find(path);
@@ -380,7 +381,7 @@ static InvocationResult invoke(const InvocationOpts& o) {
 // ------------------------------------------------------------------------------------------------ scenario set-up and the oracles shared by several properties
 static void init_tree(const Scenario* sc) {
   for (int i = 0; i < 16; i++) g_last[i] = LastRun();
-  g_sc = sc; g_tree = new Tree; g_manifest_variant = 0; g_dead = false;
+  g_sc = sc; g_tree = new Tree; g_manifest_variant = 0; g_mkdir_may_fail = false; g_dead = false;
   std::vector<std::string> src = split_words(sc->sources);
   for (size_t i = 0; i < src.size(); i++) { VFile f; f.name = src[i]; f.exists = true; f.mtime = 1; f.content = 100 + 10 * (long)i; f.is_text = false; g_tree->files.push_back(f); }
 }
